@@ -35,10 +35,12 @@ for _d in DAYS:
 
 
 # --------------------------------------------------------------------------- calendar oracle
-def oracle_month_hours(i: int, year: int = 2019) -> int:
-    """Hours in simulated month i (1-based) of the calendar year `year` repeated (the tool uses
-    years[0] for every simulated year), via datetime."""
+def oracle_month_hours(i: int, year=2019) -> int:
+    """Hours in simulated month i (1-based), via datetime.  `year` is an int (the tool repeats
+    years[0] for every simulated year) or a list of load years (month i lies in years[(i-1)//12])."""
     m = (i - 1) % 12 + 1
+    if isinstance(year, (list, tuple)):
+        year = year[((i - 1) // 12) % len(year)] if len(year) > 1 else year[0]
     a = dt.datetime(year, m, 1)
     b = dt.datetime(year, m + 1, 1) if m < 12 else dt.datetime(year + 1, 1, 1)
     return int((b - a).total_seconds() // 3600)
@@ -47,9 +49,9 @@ def oracle_month_hours(i: int, year: int = 2019) -> int:
 _OME: dict = {}
 
 
-def oracle_month_end(i: int, year: int = 2019) -> int:
-    """Last hour of simulated month i = hours elapsed in the first i months of repeating `year`."""
-    key = (i, year)
+def oracle_month_end(i: int, year=2019) -> int:
+    """Last hour of simulated month i = hours elapsed in the first i months."""
+    key = (i, tuple(year) if isinstance(year, (list, tuple)) else year)
     if key not in _OME:
         _OME[key] = sum(oracle_month_hours(j, year) for j in range(1, i + 1))
     return _OME[key]
@@ -431,13 +433,13 @@ def compare_monthly(impl_rows, model_rows, dur_rel=1e-7):
 
 
 # --------------------------------------------------------------------------- oracles on the implementation's arrays
-def month_sums(raw, year=2019):
+def month_sums(raw, year=2019, n_months=12):
     """Per-month rejection / extraction totals (kWh), peaks (kW), day of the first peak and net load of
     the input profile — no shared code with the implementation.  Totals: `math.fsum` of the given
     doubles (exact sum, rounded once) divided exactly by 1000; peaks and days exact."""
     out = []
-    starts = [oracle_month_end(m, year) for m in range(13)]  # hours before each month of calendar year `year`
-    for m in range(12):
+    starts = [oracle_month_end(m, year) for m in range(n_months + 1)]  # hours before each month of the load year(s)
+    for m in range(n_months):
         seg = raw[starts[m]:starts[m + 1]]
         cl = Fraction(math.fsum(-x for x in seg if x < 0)) / 1000
         hl = Fraction(math.fsum(x for x in seg if x >= 0)) / 1000
@@ -807,3 +809,96 @@ if __name__ == "__main__":
     if "--history" in sys.argv:
         job = json.loads(sys.stdin.read())
         print(json.dumps(history_run(job["seq"], job["phys"])))
+
+
+# --------------------------------------------------------------------------- whole-GHE streams (glue around HybridLoad)
+def wave_profile(seed: int, hours: int = 8760, second_year_factor=None):
+    """A smooth two-sided profile (W) that is non-zero in EVERY hour (in particular on 31 December and on
+    29 February of an 8784-hour year); optionally followed by a second year at `second_year_factor`."""
+    rng = random.Random(seed)
+    a, b, c = rng.uniform(3000, 9000), rng.uniform(500, 2500), rng.uniform(300, 1500)
+    ph = rng.uniform(0, 6.28)
+    y1 = [a * math.cos(2 * math.pi * (h // 24) / (hours / 24.0) + ph) + b * math.sin(2 * math.pi * (h % 24) / 24.0) - c
+          + 37.0 * ((h * 7919) % 13) for h in range(hours)]
+    y1 = [x if abs(x) > 1.0 else 25.0 for x in y1]
+    if second_year_factor is None:
+        return y1
+    return y1 + [second_year_factor * x for x in y1]
+
+
+def snapshot_hybrid(hl):
+    n = len(hl.monthly_cl)
+    return {"hour": [float(x) for x in hl.hour], "load": [float(x) for x in hl.load], "years": [int(y) for y in hl.years],
+            "monthly": [[float(getattr(hl, f)[i]) for f in MONTHLY_FIELDS] for i in range(1, min(n, 12 * max(1, len(hl.years)) + 1))]}
+
+
+def run_ghe_history(args):
+    """Build a real GHE (through GHE.__init__), snapshot its hybrid load, then simulate(HYBRID) twice and
+    size once, snapshotting after every call.  args = dict(phys, seed, start, end, years, hours)."""
+    from ghedesigner.enums import TimestepType
+    from ghedesigner.gfunction import calc_g_func_for_multiple_lengths
+    from ghedesigner.ground_heat_exchangers import GHE
+    from ghedesigner.simulation import SimulationParameters
+    from ghedesigner.utilities import eskilson_log_times
+
+    a = args
+    phys = a["phys"]
+    fluid, pipe, grout, soil, bh, bhe_type = ghelib.media(phys, "SINGLEUTUBE")
+    coords = [(0.0, 0.0), (5.0, 0.0), (0.0, 5.0), (5.0, 5.0)]
+    loads = wave_profile(a["seed"], a["hours"])
+    sim = SimulationParameters(a["start"], a["end"], 35.0, 5.0, 135.0, 60.0)
+    m_bh = phys["flow"] / 1000.0 * fluid.rho
+    out = {"steps": []}
+    try:
+        with ghelib.quiet(), warnings.catch_warnings():
+            warnings.simplefilter("ignore")
+            g = calc_g_func_for_multiple_lengths(5.0, [60.0, 97.0, 135.0], bh.r_b, bh.D, m_bh, bhe_type, eskilson_log_times(),
+                                                 coords, fluid, pipe, grout, soil)
+            ghe = GHE(phys["flow"] * len(coords), 5.0, bhe_type, fluid, bh, pipe, grout, soil, g, sim, list(loads),
+                      load_years=list(a["years"]))
+            out["steps"].append(("built", snapshot_hybrid(ghe.hybrid_load)))
+            for name in a.get("calls", ["simulate", "simulate", "size"]):
+                try:
+                    if name == "simulate":
+                        ghe.simulate(TimestepType.HYBRID)
+                    else:
+                        ghe.size(TimestepType.HYBRID)
+                except Exception as e:  # noqa: BLE001
+                    out["steps"].append((name + ":raise-" + type(e).__name__, snapshot_hybrid(ghe.hybrid_load)))
+                    continue
+                out["steps"].append((name, snapshot_hybrid(ghe.hybrid_load)))
+    except Exception as e:  # noqa: BLE001
+        out["raise"] = type(e).__name__ + ": " + str(e)[:200]
+    return out
+
+
+def run_design_search(args):
+    """A real design search through the public design classes with explicit load_years; returns the
+    hybrid load of the GHE the search constructor built and of the GHE the search RETURNS.
+    args = dict(phys, seed, years, hours, months, design, second_year_factor)."""
+    from ghedesigner.design import DesignNearSquare, DesignRectangle
+    from ghedesigner.enums import FlowConfigType, TimestepType
+    from ghedesigner.geometry import GeometricConstraintsNearSquare, GeometricConstraintsRectangle
+    from ghedesigner.simulation import SimulationParameters
+
+    a = args
+    phys = a["phys"]
+    fluid, pipe, grout, soil, bh, bhe_type = ghelib.media(phys, "SINGLEUTUBE")
+    loads = wave_profile(a["seed"], a["hours"], a.get("second_year_factor"))
+    sim = SimulationParameters(1, a["months"], 35.0, 5.0, 135.0, 60.0, continue_if_design_unmet=True)
+    out = {}
+    try:
+        with ghelib.quiet(), warnings.catch_warnings():
+            warnings.simplefilter("ignore")
+            if a["design"] == "NEARSQUARE":
+                d = DesignNearSquare(phys["flow"], bh, bhe_type, fluid, pipe, grout, soil, sim, GeometricConstraintsNearSquare(5.0, 20.0),
+                                     list(loads), TimestepType.HYBRID, flow_type=FlowConfigType.BOREHOLE, load_years=list(a["years"]))
+            else:
+                d = DesignRectangle(phys["flow"], bh, bhe_type, fluid, pipe, grout, soil, sim, GeometricConstraintsRectangle(20.0, 15.0, 4.0, 8.0),
+                                    list(loads), TimestepType.HYBRID, flow_type=FlowConfigType.BOREHOLE, load_years=list(a["years"]))
+            search = d.find_design()
+            out["n_boreholes"] = len(search.selected_coordinates)
+            out["returned"] = snapshot_hybrid(search.ghe.hybrid_load)
+    except Exception as e:  # noqa: BLE001
+        out["raise"] = type(e).__name__ + ": " + str(e)[:300]
+    return out
